@@ -338,6 +338,8 @@ type ppc =
 | PLink
 | PSetT
 | PPub
+| PLenH
+| PLenT
 
 type cpc =
 | CIdle
@@ -359,19 +361,21 @@ type mem = { tidx : nat; tblk : nat; hidx : nat; hblk : nat; first :
              nat; lasth : nat; nxt : (nat -> nat);
              slot : (nat -> nat -> (nat * nat) option); nalloc : nat }
 
-type prod0 = { pp : ppc; pv : nat; pnew : nat; plh : nat }
+type prod0 = { pp : ppc; pv : nat; pnew : nat; plh : nat; plenh : nat;
+               pres : nat }
 
 type cons = { cp : cpc; cop : op; cpidx : nat; cend : nat; ck : nat;
               cacc : nat list; cnh : nat; clh : nat; cres : nat }
 
-type gq = { absq : nat list; pushed : nat list; popped : nat list; glen0 : nat }
+type gq = { absq : nat list; pushed : nat list; popped : nat list;
+            glen0 : nat; glen0p : nat }
 
 type gk = { bid : (nat -> nat); gfk : nat; glk : nat; gplk : nat; ghk : 
             nat; gtk : nat; gnb : nat }
 
 type gm = { bad_fifo : bool; bad_none : bool; bad_read : bool;
-            bad_recyc : bool; bad_over : bool; bad_null : bool; bad_len : 
-            bool }
+            bad_recyc : bool; bad_over : bool; bad_null : bool;
+            bad_len : bool; bad_lenp : bool }
 
 type st = { m : mem; p : prod0; c : cons; q : gq; k : gk; f : gm }
 
@@ -475,17 +479,26 @@ let m_nalloc m0 v =
 (** val p_pc : prod0 -> ppc -> prod0 **)
 
 let p_pc p0 v =
-  { pp = v; pv = p0.pv; pnew = p0.pnew; plh = p0.plh }
+  { pp = v; pv = p0.pv; pnew = p0.pnew; plh = p0.plh; plenh = p0.plenh;
+    pres = p0.pres }
 
 (** val p_new : prod0 -> nat -> prod0 **)
 
 let p_new p0 v =
-  { pp = p0.pp; pv = p0.pv; pnew = v; plh = p0.plh }
+  { pp = p0.pp; pv = p0.pv; pnew = v; plh = p0.plh; plenh = p0.plenh; pres =
+    p0.pres }
 
 (** val p_lh : prod0 -> nat -> prod0 **)
 
 let p_lh p0 v =
-  { pp = p0.pp; pv = p0.pv; pnew = p0.pnew; plh = v }
+  { pp = p0.pp; pv = p0.pv; pnew = p0.pnew; plh = v; plenh = p0.plenh; pres =
+    p0.pres }
+
+(** val q_len0p : gq -> nat -> gq **)
+
+let q_len0p q0 v =
+  { absq = q0.absq; pushed = q0.pushed; popped = q0.popped; glen0 = q0.glen0;
+    glen0p = v }
 
 (** val c_pc : cons -> cpc -> cons **)
 
@@ -534,49 +547,56 @@ let k_app k0 b =
 let f_fifo f0 b =
   { bad_fifo = ((||) f0.bad_fifo b); bad_none = f0.bad_none; bad_read =
     f0.bad_read; bad_recyc = f0.bad_recyc; bad_over = f0.bad_over; bad_null =
-    f0.bad_null; bad_len = f0.bad_len }
+    f0.bad_null; bad_len = f0.bad_len; bad_lenp = f0.bad_lenp }
 
 (** val f_none : gm -> bool -> gm **)
 
 let f_none f0 b =
   { bad_fifo = f0.bad_fifo; bad_none = ((||) f0.bad_none b); bad_read =
     f0.bad_read; bad_recyc = f0.bad_recyc; bad_over = f0.bad_over; bad_null =
-    f0.bad_null; bad_len = f0.bad_len }
+    f0.bad_null; bad_len = f0.bad_len; bad_lenp = f0.bad_lenp }
 
 (** val f_read : gm -> bool -> gm **)
 
 let f_read f0 b =
   { bad_fifo = f0.bad_fifo; bad_none = f0.bad_none; bad_read =
     ((||) f0.bad_read b); bad_recyc = f0.bad_recyc; bad_over = f0.bad_over;
-    bad_null = f0.bad_null; bad_len = f0.bad_len }
+    bad_null = f0.bad_null; bad_len = f0.bad_len; bad_lenp = f0.bad_lenp }
 
 (** val f_recyc : gm -> bool -> gm **)
 
 let f_recyc f0 b =
   { bad_fifo = f0.bad_fifo; bad_none = f0.bad_none; bad_read = f0.bad_read;
     bad_recyc = ((||) f0.bad_recyc b); bad_over = f0.bad_over; bad_null =
-    f0.bad_null; bad_len = f0.bad_len }
+    f0.bad_null; bad_len = f0.bad_len; bad_lenp = f0.bad_lenp }
 
 (** val f_over : gm -> bool -> gm **)
 
 let f_over f0 b =
   { bad_fifo = f0.bad_fifo; bad_none = f0.bad_none; bad_read = f0.bad_read;
     bad_recyc = f0.bad_recyc; bad_over = ((||) f0.bad_over b); bad_null =
-    f0.bad_null; bad_len = f0.bad_len }
+    f0.bad_null; bad_len = f0.bad_len; bad_lenp = f0.bad_lenp }
 
 (** val f_null : gm -> bool -> gm **)
 
 let f_null f0 b =
   { bad_fifo = f0.bad_fifo; bad_none = f0.bad_none; bad_read = f0.bad_read;
     bad_recyc = f0.bad_recyc; bad_over = f0.bad_over; bad_null =
-    ((||) f0.bad_null b); bad_len = f0.bad_len }
+    ((||) f0.bad_null b); bad_len = f0.bad_len; bad_lenp = f0.bad_lenp }
 
 (** val f_len : gm -> bool -> gm **)
 
 let f_len f0 b =
   { bad_fifo = f0.bad_fifo; bad_none = f0.bad_none; bad_read = f0.bad_read;
     bad_recyc = f0.bad_recyc; bad_over = f0.bad_over; bad_null = f0.bad_null;
-    bad_len = ((||) f0.bad_len b) }
+    bad_len = ((||) f0.bad_len b); bad_lenp = f0.bad_lenp }
+
+(** val f_lenp : gm -> bool -> gm **)
+
+let f_lenp f0 b =
+  { bad_fifo = f0.bad_fifo; bad_none = f0.bad_none; bad_read = f0.bad_read;
+    bad_recyc = f0.bad_recyc; bad_over = f0.bad_over; bad_null = f0.bad_null;
+    bad_len = f0.bad_len; bad_lenp = ((||) f0.bad_lenp b) }
 
 (** val rdpos : st -> nat **)
 
@@ -595,6 +615,7 @@ let in_window s b =
 
 type action =
 | Push of nat
+| PLen
 | PStep
 | Pop
 | Bulk
@@ -621,7 +642,8 @@ let start_call s o =
        | OLen -> CLenH
        | _ -> CTail); cop = o; cpidx = O; cend = O; ck = O; cacc = []; cnh =
       O; clh = O; cres = O }; q = { absq = s.q.absq; pushed = s.q.pushed;
-      popped = s.q.popped; glen0 = (length s.q.absq) }; k = s.k; f = s.f }
+      popped = s.q.popped; glen0 = (length s.q.absq); glen0p = s.q.glen0p };
+      k = s.k; f = s.f }
   | _ -> None
 
 (** val step : nat -> st -> action -> st option **)
@@ -637,8 +659,15 @@ let step b s a =
    | Push v ->
      (match p0.pp with
       | PIdle ->
-        Some { m = m0; p = { pp = PWrite; pv = v; pnew = O; plh = O }; c =
-          c0; q = q0; k = k0; f = f0 }
+        Some { m = m0; p = { pp = PWrite; pv = v; pnew = O; plh = O; plenh =
+          O; pres = O }; c = c0; q = q0; k = k0; f = f0 }
+      | _ -> None)
+   | PLen ->
+     (match p0.pp with
+      | PIdle ->
+        Some { m = m0; p = { pp = PLenH; pv = p0.pv; pnew = O; plh = O;
+          plenh = O; pres = O }; c = c0; q = (q_len0p q0 (length q0.absq));
+          k = k0; f = f0 }
       | _ -> None)
    | PStep ->
      (match p0.pp with
@@ -676,7 +705,15 @@ let step b s a =
         Some { m = (m_tidx m0 (S m0.tidx)); p = (p_pc p0 PIdle); c = c0; q =
           { absq = (app q0.absq (p0.pv :: [])); pushed =
           (app q0.pushed (p0.pv :: [])); popped = q0.popped; glen0 =
-          q0.glen0 }; k = k0; f = f0 }
+          q0.glen0; glen0p = q0.glen0p }; k = k0; f = f0 }
+      | PLenH ->
+        Some { m = m0; p = { pp = PLenT; pv = p0.pv; pnew = O; plh = O;
+          plenh = m0.hidx; pres = O }; c = c0; q = q0; k = k0; f = f0 }
+      | PLenT ->
+        let r = sub m0.tidx p0.plenh in
+        Some { m = m0; p = { pp = PIdle; pv = p0.pv; pnew = O; plh = O;
+        plenh = p0.plenh; pres = r }; c = c0; q = q0; k = k0; f =
+        (f_lenp f0 ((||) (Nat.ltb r (length q0.absq)) (Nat.ltb q0.glen0p r))) }
       | _ -> Some (recycle s))
    | Pop -> start_call s OPop
    | Bulk -> start_call s OBulk
@@ -740,8 +777,8 @@ let step b s a =
         let n = length c0.cacc in
         Some { m = (m_hidx m0 c0.cend); p = p0; c = (c_pc c0 CIdle); q =
         { absq = (skipn n q0.absq); pushed = q0.pushed; popped =
-        (app q0.popped c0.cacc); glen0 = q0.glen0 }; k = k0; f =
-        (f_fifo f0 (negb (list_eqb c0.cacc (firstn n q0.absq)))) }
+        (app q0.popped c0.cacc); glen0 = q0.glen0; glen0p = q0.glen0p }; k =
+        k0; f = (f_fifo f0 (negb (list_eqb c0.cacc (firstn n q0.absq)))) }
       | CLenH ->
         Some { m = m0; p = p0; c = { cp = CLenT; cop = c0.cop; cpidx = O;
           cend = O; ck = O; cacc = []; cnh = O; clh = m0.hidx; cres = O };
@@ -758,13 +795,13 @@ let step b s a =
 let init =
   { m = { tidx = O; tblk = (S O); hidx = O; hblk = (S O); first = (S O);
     lasth = (S O); nxt = (fun _ -> O); slot = (fun _ _ -> None); nalloc = (S
-    (S O)) }; p = { pp = PIdle; pv = O; pnew = O; plh = O }; c = { cp =
-    CIdle; cop = OPop; cpidx = O; cend = O; ck = O; cacc = []; cnh = O; clh =
-    O; cres = O }; q = { absq = []; pushed = []; popped = []; glen0 = O };
-    k = { bid = (fun _ -> S O); gfk = O; glk = O; gplk = O; ghk = O; gtk = O;
-    gnb = (S O) }; f = { bad_fifo = false; bad_none = false; bad_read =
-    false; bad_recyc = false; bad_over = false; bad_null = false; bad_len =
-    false } }
+    (S O)) }; p = { pp = PIdle; pv = O; pnew = O; plh = O; plenh = O; pres =
+    O }; c = { cp = CIdle; cop = OPop; cpidx = O; cend = O; ck = O; cacc =
+    []; cnh = O; clh = O; cres = O }; q = { absq = []; pushed = []; popped =
+    []; glen0 = O; glen0p = O }; k = { bid = (fun _ -> S O); gfk = O; glk =
+    O; gplk = O; ghk = O; gtk = O; gnb = (S O) }; f = { bad_fifo = false;
+    bad_none = false; bad_read = false; bad_recyc = false; bad_over = false;
+    bad_null = false; bad_len = false; bad_lenp = false } }
 
 (** val run : nat -> st -> action list -> st option **)
 
@@ -782,18 +819,21 @@ let monitors_ok s =
     ((||)
       ((||)
         ((||)
-          ((||) ((||) ((||) f0.bad_fifo f0.bad_none) f0.bad_read)
-            f0.bad_recyc) f0.bad_over) f0.bad_null) f0.bad_len)
+          ((||)
+            ((||) ((||) ((||) f0.bad_fifo f0.bad_none) f0.bad_read)
+              f0.bad_recyc) f0.bad_over) f0.bad_null) f0.bad_len) f0.bad_lenp)
 
-type aux = { ren : (z * nat) list; sob : (z * nat) list; pact : z; cact : 
-             z; ccall : nat; nitems : nat }
+type aux = { ren : (z * nat) list; sob : (z * nat) list;
+             fob : (z * nat) list; pact : z; pkind : nat; cact : z;
+             ccall : nat; nitems : nat }
 
 type ast = st * aux
 
 (** val aux0 : aux **)
 
 let aux0 =
-  { ren = []; sob = []; pact = Z0; cact = Z0; ccall = O; nitems = O }
+  { ren = []; sob = []; fob = []; pact = Z0; pkind = O; cact = Z0; ccall = O;
+    nitems = O }
 
 (** val a_init : ast **)
 
@@ -863,6 +903,12 @@ let ppc_eqb a b =
   | PPub -> (match b with
              | PPub -> true
              | _ -> false)
+  | PLenH -> (match b with
+              | PLenH -> true
+              | _ -> false)
+  | PLenT -> (match b with
+              | PLenT -> true
+              | _ -> false)
 
 (** val cpc_eqb : cpc -> cpc -> bool **)
 
@@ -913,31 +959,38 @@ let op_eqb a b =
 (** val set_ren : aux -> (z * nat) list -> aux **)
 
 let set_ren x l =
-  { ren = l; sob = x.sob; pact = x.pact; cact = x.cact; ccall = x.ccall;
-    nitems = x.nitems }
+  { ren = l; sob = x.sob; fob = x.fob; pact = x.pact; pkind = x.pkind; cact =
+    x.cact; ccall = x.ccall; nitems = x.nitems }
 
 (** val set_sob : aux -> (z * nat) list -> aux **)
 
 let set_sob x l =
-  { ren = x.ren; sob = l; pact = x.pact; cact = x.cact; ccall = x.ccall;
-    nitems = x.nitems }
+  { ren = x.ren; sob = l; fob = x.fob; pact = x.pact; pkind = x.pkind; cact =
+    x.cact; ccall = x.ccall; nitems = x.nitems }
 
-(** val set_pact : aux -> z -> aux **)
+(** val set_pact : aux -> z -> nat -> aux **)
 
-let set_pact x a =
-  { ren = x.ren; sob = x.sob; pact = a; cact = x.cact; ccall = x.ccall;
-    nitems = x.nitems }
+let set_pact x a k0 =
+  { ren = x.ren; sob = x.sob; fob = x.fob; pact = a; pkind = k0; cact =
+    x.cact; ccall = x.ccall; nitems = x.nitems }
 
 (** val set_call : aux -> z -> nat -> aux **)
 
 let set_call x a n =
-  { ren = x.ren; sob = x.sob; pact = x.pact; cact = a; ccall = n; nitems = O }
+  { ren = x.ren; sob = x.sob; fob = x.fob; pact = x.pact; pkind = x.pkind;
+    cact = a; ccall = n; nitems = O }
+
+(** val set_fob : aux -> (z * nat) list -> aux **)
+
+let set_fob x l =
+  { ren = x.ren; sob = x.sob; fob = l; pact = x.pact; pkind = x.pkind; cact =
+    x.cact; ccall = x.ccall; nitems = x.nitems }
 
 (** val set_items : aux -> nat -> aux **)
 
 let set_items x n =
-  { ren = x.ren; sob = x.sob; pact = x.pact; cact = x.cact; ccall = x.ccall;
-    nitems = n }
+  { ren = x.ren; sob = x.sob; fob = x.fob; pact = x.pact; pkind = x.pkind;
+    cact = x.cact; ccall = x.ccall; nitems = n }
 
 (** val fin :
     nat -> st -> bool -> action list -> (st -> bool) -> (st -> aux option) ->
@@ -990,9 +1043,165 @@ let load_acts b s =
 let reads_done s =
   (&&) (negb (cpc_eqb s.c.cp CRead)) (negb (cpc_eqb s.c.cp CTail))
 
-(** val accept_ev : nat -> ast -> z list -> ast option **)
+(** val field_of : st -> z -> nat option **)
 
-let accept_ev b sx e =
+let field_of s = function
+| Zpos p0 ->
+  (match p0 with
+   | XI p1 ->
+     (match p1 with
+      | XI p2 ->
+        (match p2 with
+         | XI p3 ->
+           (match p3 with
+            | XI p4 ->
+              (match p4 with
+               | XH ->
+                 Some
+                   (add (S (S (S (S (S (S (S (S (S (S (S (S (S (S (S (S (S (S
+                     (S (S (S (S (S (S (S (S (S (S (S (S (S (S (S (S (S (S (S
+                     (S (S (S (S (S (S (S (S (S (S (S (S (S (S (S (S (S (S (S
+                     (S (S (S (S (S (S (S (S (S (S (S (S (S (S (S (S (S (S (S
+                     (S (S (S (S (S (S (S (S (S (S (S (S (S (S (S (S (S (S (S
+                     (S (S (S (S (S (S
+                     O))))))))))))))))))))))))))))))))))))))))))))))))))))))))))))))))))))))))))))))))))))))))))))))))))))
+                     s.m.hblk)
+               | _ -> None)
+            | XO p4 ->
+              (match p4 with
+               | XH -> Some (S (S (S (S (S O)))))
+               | _ -> None)
+            | XH -> None)
+         | XO p3 ->
+           (match p3 with
+            | XI p4 ->
+              (match p4 with
+               | XO p5 -> (match p5 with
+                           | XH -> Some (S (S O))
+                           | _ -> None)
+               | _ -> None)
+            | _ -> None)
+         | XH -> None)
+      | XO p2 ->
+        (match p2 with
+         | XI p3 ->
+           (match p3 with
+            | XI p4 ->
+              (match p4 with
+               | XI p5 -> (match p5 with
+                           | XH -> Some (S O)
+                           | _ -> None)
+               | _ -> None)
+            | XO p4 ->
+              (match p4 with
+               | XH -> Some (S (S (S (S (S O)))))
+               | _ -> None)
+            | XH -> None)
+         | XO p3 ->
+           (match p3 with
+            | XI p4 ->
+              (match p4 with
+               | XI _ -> None
+               | XO p5 ->
+                 (match p5 with
+                  | XH ->
+                    Some
+                      (add (S (S (S (S (S (S (S (S (S (S (S (S (S (S (S (S (S
+                        (S (S (S (S (S (S (S (S (S (S (S (S (S (S (S (S (S (S
+                        (S (S (S (S (S (S (S (S (S (S (S (S (S (S (S (S (S (S
+                        (S (S (S (S (S (S (S (S (S (S (S (S (S (S (S (S (S (S
+                        (S (S (S (S (S (S (S (S (S (S (S (S (S (S (S (S (S (S
+                        (S (S (S (S (S (S (S (S (S (S (S
+                        O))))))))))))))))))))))))))))))))))))))))))))))))))))))))))))))))))))))))))))))))))))))))))))))))))))
+                        s.m.hblk)
+                  | _ -> None)
+               | XH -> Some (S (S (S O))))
+            | XO p4 ->
+              (match p4 with
+               | XO p5 -> (match p5 with
+                           | XH -> Some (S (S O))
+                           | _ -> None)
+               | _ -> None)
+            | XH -> None)
+         | XH -> None)
+      | XH -> None)
+   | XO p1 ->
+     (match p1 with
+      | XI p2 ->
+        (match p2 with
+         | XI p3 ->
+           (match p3 with
+            | XI p4 -> (match p4 with
+                        | XH -> Some (S O)
+                        | _ -> None)
+            | XO p4 ->
+              (match p4 with
+               | XH -> Some (S (S (S (S (S (S O))))))
+               | _ -> None)
+            | XH -> None)
+         | XO p3 ->
+           (match p3 with
+            | XI p4 ->
+              (match p4 with
+               | XI _ -> None
+               | XO p5 ->
+                 (match p5 with
+                  | XH -> Some (S (S (S (S O))))
+                  | _ -> None)
+               | XH -> Some (S O))
+            | XO p4 ->
+              (match p4 with
+               | XI p5 -> (match p5 with
+                           | XH -> Some (S O)
+                           | _ -> None)
+               | _ -> None)
+            | XH -> None)
+         | XH -> None)
+      | XO p2 ->
+        (match p2 with
+         | XI p3 ->
+           (match p3 with
+            | XI p4 ->
+              (match p4 with
+               | XI p5 -> (match p5 with
+                           | XH -> Some (S (S O))
+                           | _ -> None)
+               | _ -> None)
+            | _ -> None)
+         | XO p3 ->
+           (match p3 with
+            | XI p4 ->
+              (match p4 with
+               | XI _ -> None
+               | XO p5 -> (match p5 with
+                           | XH -> Some (S O)
+                           | _ -> None)
+               | XH ->
+                 Some
+                   (add (S (S (S (S (S (S (S (S (S (S (S (S (S (S (S (S (S (S
+                     (S (S (S (S (S (S (S (S (S (S (S (S (S (S (S (S (S (S (S
+                     (S (S (S (S (S (S (S (S (S (S (S (S (S (S (S (S (S (S (S
+                     (S (S (S (S (S (S (S (S (S (S (S (S (S (S (S (S (S (S (S
+                     (S (S (S (S (S (S (S (S (S (S (S (S (S (S (S (S (S (S (S
+                     (S (S (S (S (S (S
+                     O))))))))))))))))))))))))))))))))))))))))))))))))))))))))))))))))))))))))))))))))))))))))))))))))))))
+                     s.m.tblk))
+            | XO p4 ->
+              (match p4 with
+               | XO p5 ->
+                 (match p5 with
+                  | XH -> Some (S (S (S (S O))))
+                  | _ -> None)
+               | _ -> None)
+            | XH -> None)
+         | XH -> None)
+      | XH -> None)
+   | XH -> None)
+| _ -> None
+
+(** val accept_core : nat -> ast -> z list -> ast option **)
+
+let accept_core b sx e =
   let (s, x) = sx in
   let m0 = s.m in
   let p0 = s.p in
@@ -1037,7 +1246,14 @@ let accept_ev b sx e =
                                      ((&&) (ppc_eqb p0.pp PRec2) (inp a))
                                      PStep v (fun s' -> s'.m.first)
                                  | _ -> None)
-                              | XH -> None)
+                              | XH ->
+                                fin b s
+                                  ((&&)
+                                    ((&&)
+                                      ((&&) (ppc_eqb p0.pp PIdle) (inp a))
+                                      (Nat.eqb x.pkind (S (S O))))
+                                    (zn p0.pres v)) [] (fun _ -> true)
+                                  (fun _ -> Some (set_pact x Z0 O)))
                            | XO p4 ->
                              (match p4 with
                               | XI p5 ->
@@ -1085,13 +1301,19 @@ let accept_ev b sx e =
                                  | XI p6 ->
                                    (match p6 with
                                     | XH ->
-                                      fin b s
-                                        ((&&)
-                                          ((&&) (at_c CLenT OLen)
-                                            ((||) (inc a (S (S (S O))))
-                                              (inc a (S (S (S (S O)))))))
-                                          (zn m0.tidx v)) (CStep :: [])
-                                        (fun _ -> true) (fun _ -> Some x)
+                                      if (&&) (inp a)
+                                           (Nat.eqb x.pkind (S (S O)))
+                                      then fin b s
+                                             ((&&) (ppc_eqb p0.pp PLenT)
+                                               (zn m0.tidx v)) (PStep :: [])
+                                             (fun _ -> true) (fun _ -> Some x)
+                                      else fin b s
+                                             ((&&)
+                                               ((&&) (at_c CLenT OLen)
+                                                 ((||) (inc a (S (S (S O))))
+                                                   (inc a (S (S (S (S O)))))))
+                                               (zn m0.tidx v)) (CStep :: [])
+                                             (fun _ -> true) (fun _ -> Some x)
                                     | _ -> None)
                                  | _ -> None)
                               | XO p5 ->
@@ -1177,8 +1399,8 @@ let accept_ev b sx e =
                                    fin b s
                                      ((&&)
                                        ((&&) (at_c CTail OPop) (inc a (S O)))
-                                       (zn m0.tidx v)) (load_acts b s)
-                                     reads_done (fun _ -> Some x)
+                                       (zn m0.tidx v)) (CStep :: [])
+                                     (fun _ -> true) (fun _ -> Some x)
                                  | _ -> None)
                               | XO p5 ->
                                 (match p5 with
@@ -1187,7 +1409,13 @@ let accept_ev b sx e =
                                      ((&&) (ppc_eqb p0.pp PStLH) (inp a))
                                      PStep v (fun s' -> s'.m.lasth)
                                  | _ -> None)
-                              | XH -> None)
+                              | XH ->
+                                fin b s
+                                  ((&&)
+                                    ((&&) (ppc_eqb p0.pp PIdle)
+                                      (Z.eqb x.pact Z0)) (Z.ltb Z0 a))
+                                  (PLen :: []) (fun _ -> true) (fun _ -> Some
+                                  (set_pact x a (S (S O)))))
                            | XO p4 ->
                              (match p4 with
                               | XI p5 ->
@@ -1218,7 +1446,26 @@ let accept_ev b sx e =
                                           (zn m0.tidx v)) (load_acts b s)
                                         reads_done (fun _ -> Some x)
                                     | _ -> None)
-                                 | _ -> None)
+                                 | XO p6 ->
+                                   (match p6 with
+                                    | XH ->
+                                      fin b s
+                                        ((&&)
+                                          ((&&) (cpc_eqb c0.cp CRead)
+                                            ((||)
+                                              ((&&) (op_eqb c0.cop OPop)
+                                                (inc a (S O)))
+                                              ((&&) (op_eqb c0.cop OBulk)
+                                                (inc a (S (S O))))))
+                                          (zn (Nat.modulo c0.ck b) v))
+                                        (CStep :: []) (fun _ -> true)
+                                        (fun _ ->
+                                        option_map (set_sob x)
+                                          (bind x.sob o
+                                            (add (mul m0.hblk b)
+                                              (Nat.modulo c0.ck b))))
+                                    | _ -> None)
+                                 | XH -> None)
                               | XH ->
                                 fin b s
                                   ((&&) (cpc_eqb c0.cp CIdle)
@@ -1246,12 +1493,18 @@ let accept_ev b sx e =
                                  | XI p6 ->
                                    (match p6 with
                                     | XH ->
-                                      fin b s
-                                        ((&&) (at_c CLenH OLen)
-                                          ((||) (inc a (S (S (S O))))
-                                            (inc a (S (S (S (S O)))))))
-                                        (CStep :: []) (fun s' ->
-                                        zn s'.c.clh v) (fun _ -> Some x)
+                                      if (&&) (inp a)
+                                           (Nat.eqb x.pkind (S (S O)))
+                                      then fin b s (ppc_eqb p0.pp PLenH)
+                                             (PStep :: []) (fun s' ->
+                                             zn s'.p.plenh v) (fun _ -> Some
+                                             x)
+                                      else fin b s
+                                             ((&&) (at_c CLenH OLen)
+                                               ((||) (inc a (S (S (S O))))
+                                                 (inc a (S (S (S (S O)))))))
+                                             (CStep :: []) (fun s' ->
+                                             zn s'.c.clh v) (fun _ -> Some x)
                                     | _ -> None)
                                  | _ -> None)
                               | XO p5 ->
@@ -1289,8 +1542,8 @@ let accept_ev b sx e =
                                         ((&&)
                                           ((&&) (at_c CTail OBulk)
                                             (inc a (S (S O)))) (zn m0.tidx v))
-                                        (load_acts b s) reads_done (fun _ ->
-                                        Some x)
+                                        (CStep :: []) (fun _ -> true)
+                                        (fun _ -> Some x)
                                     | _ -> None)
                                  | XH ->
                                    ptr_ev b s x
@@ -1329,9 +1582,10 @@ let accept_ev b sx e =
                                (fun _ -> Some (set_call x Z0 O)))
                         | XH ->
                           fin b s
-                            ((&&) ((&&) (ppc_eqb p0.pp PIdle) (inp a))
-                              (Z.ltb Z0 a)) [] (fun _ -> true) (fun _ -> Some
-                            (set_pact x Z0)))
+                            ((&&)
+                              ((&&) ((&&) (ppc_eqb p0.pp PIdle) (inp a))
+                                (Nat.eqb x.pkind (S O))) (Z.ltb Z0 a)) []
+                            (fun _ -> true) (fun _ -> Some (set_pact x Z0 O)))
                      | XH ->
                        fin b s
                          ((&&)
@@ -1339,9 +1593,37 @@ let accept_ev b sx e =
                              ((&&) (ppc_eqb p0.pp PIdle) (Z.eqb x.pact Z0))
                              (Z.leb Z0 v)) (Z.ltb Z0 a)) ((Push
                          (Z.to_nat v)) :: []) (fun _ -> true) (fun _ -> Some
-                         (set_pact x a)))
+                         (set_pact x a (S O))))
                   | _ -> None)
                | _ :: _ -> None)))))
+
+(** val accept_ev : nat -> ast -> z list -> ast option **)
+
+let accept_ev b sx e =
+  match accept_core b sx e with
+  | Some a ->
+    let (s', x') = a in
+    (match e with
+     | [] -> Some (s', x')
+     | code :: l ->
+       (match l with
+        | [] -> Some (s', x')
+        | _ :: l0 ->
+          (match l0 with
+           | [] -> Some (s', x')
+           | o :: l1 ->
+             (match l1 with
+              | [] -> Some (s', x')
+              | _ :: l2 ->
+                (match l2 with
+                 | [] ->
+                   (match field_of (fst sx) code with
+                    | Some fld ->
+                      option_map (fun l3 -> (s', (set_fob x' l3)))
+                        (bind x'.fob o fld)
+                    | None -> Some (s', x'))
+                 | _ :: _ -> Some (s', x'))))))
+  | None -> None
 
 (** val a_final : ast -> bool **)
 
